@@ -168,3 +168,83 @@ func VerifTTLCleaner() {
 	c.Stop() // idempotent
 	zzverif.Cover("ttl_cleaner_done")
 }
+
+// Stop from two goroutines at once: each call returns only after the background cleaner has exited
+//
+//verif:harness prop=C15 name=ttl_stop_concurrent threads=3 sched=delay preempt=3 t_preempt=4 unwind=12 witness=lenient
+func VerifTTLStopConcurrent() {
+	vStore = nil
+	clk := zzverifstubs.NewClock(zzverif.TimeFromNanos(1_000_000_000_000))
+	c := NewCache[int](CacheOptions{clock: clk, CleanupInterval: 10 * time.Second})
+	exited := func() bool {
+		select {
+		case <-c.runningCh:
+			return true
+		default:
+			return false
+		}
+	}
+	done := make(chan struct{}, 2)
+	for i := 0; i < 2; i++ {
+		go func() {
+			c.Stop()
+			zzverif.Assert(exited(), "stop_returns_after_cleaner_exited")
+			done <- struct{}{}
+		}()
+	}
+	<-done
+	<-done
+	zzverif.Cover("ttl_stop_concurrent_done")
+}
+
+// Overwrite: the latest Set decides - value and expiry - whether its TTL is shorter or longer than the old one
+//
+//verif:harness prop=C15 name=ttl_overwrite threads=2 sched=delay preempt=0 unwind=12 witness=lenient solver=cvc5
+func VerifTTLOverwrite() {
+	vStore = nil
+	start := zzverif.TimeFromNanos(1_000_000_000_000)
+	clk := zzverifstubs.NewClock(start)
+	maxTTL := zzverif.Int64("max_ttl")
+	zzverif.Assume(maxTTL >= 0)
+	zzverif.Assume(maxTTL <= 1_000_000)
+	c := NewCache[int](CacheOptions{MaxTTL: maxTTL, clock: clk, CleanupInterval: time.Hour})
+	t1, t2 := zzverif.Int64("ttl1"), zzverif.Int64("ttl2")
+	zzverif.Assume(t1 >= 1)
+	zzverif.Assume(t1 <= 1_000_000)
+	zzverif.Assume(t2 >= 1)
+	zzverif.Assume(t2 <= 1_000_000)
+	v1, v2 := zzverif.Int("v1"), zzverif.Int("v2")
+	c.Set("k", v1, t1)
+	gap := zzverif.Int64("gap_ns")
+	zzverif.Assume(gap >= 0)
+	zzverif.Assume(gap <= 2_000_000_000_000_000)
+	clk.Advance(time.Duration(gap))
+	c.Set("k", v2, t2)
+	setAt := clk.Now()
+	d := zzverif.Int64("elapsed_ns")
+	zzverif.Assume(d >= 0)
+	zzverif.Assume(d <= 2_000_000_000_000_000)
+	clk.Advance(time.Duration(d))
+	eff := t2
+	if maxTTL > 0 && t2 > maxTTL {
+		eff = maxTTL
+	}
+	got, ok := c.Get("k")
+	live := clk.Now().Sub(setAt) < time.Duration(eff)*time.Second
+	zzverif.Assert(ok == live, "get_hit_iff_latest_set_still_live")
+	if ok {
+		zzverif.Assert(got == v2, "get_returns_latest_value")
+	}
+	c.Cleanup()
+	if zzverif.Symbolic() {
+		_, stored := vStore[c.m]["k"]
+		exp := setAt.Add(time.Duration(eff) * time.Second)
+		if exp.Before(clk.Now()) {
+			zzverif.Assert(!stored, "cleanup_removes_expired")
+		} else {
+			zzverif.Assert(stored, "cleanup_keeps_unexpired")
+		}
+	}
+	c.Stop()
+	zzverif.Cover("ttl_overwrite_done")
+}
